@@ -354,6 +354,20 @@ func describeD(v ssa.Value, depth int) string {
 	case *ssa.Slice:
 		return "slice(" + describeD(x.X, depth+1) + ")"
 	case *ssa.Phi:
+		if isLoopCarried(x) {
+			// loop-carried variable (range index, counter): named by its
+			// comment and the ordinal of its block among equally named ones
+			k := 0
+			for _, b := range x.Parent().Blocks {
+				if b == x.Block() {
+					break
+				}
+				if b.Comment == x.Block().Comment {
+					k++
+				}
+			}
+			return fmt.Sprintf("loopvar:%s@%s#%d", x.Comment, x.Block().Comment, k)
+		}
 		var es []string
 		for _, e := range x.Edges {
 			if e == v {
@@ -621,4 +635,40 @@ func stripConvKeepIface(v ssa.Value) ssa.Value {
 			return v
 		}
 	}
+}
+
+// isLoopCarried: one of the phi's incoming values is computed from the phi
+// itself (within a few arithmetic steps).
+func isLoopCarried(phi *ssa.Phi) bool {
+	var dep func(v ssa.Value, d int) bool
+	dep = func(v ssa.Value, d int) bool {
+		if v == ssa.Value(phi) {
+			return true
+		}
+		if d > 3 {
+			return false
+		}
+		switch x := v.(type) {
+		case *ssa.BinOp:
+			return dep(x.X, d+1) || dep(x.Y, d+1)
+		case *ssa.Convert:
+			return dep(x.X, d+1)
+		case *ssa.Phi:
+			if x == phi {
+				return true
+			}
+			for _, e := range x.Edges {
+				if e == ssa.Value(phi) {
+					return true
+				}
+			}
+		}
+		return false
+	}
+	for _, e := range phi.Edges {
+		if e != ssa.Value(phi) && dep(e, 0) {
+			return true
+		}
+	}
+	return false
 }
